@@ -127,10 +127,12 @@ func runCrashBehaviour(w *tr.Writer, b storeBehaviour, seed int64, scratch strin
 	crashRoot := filepath.Join(scratch, "crash-"+b.ID)
 	_ = os.MkdirAll(crashRoot, 0o770)
 	defer os.RemoveAll(crashRoot)
+	seq := []string{}
 	file.VerifHook = func(site, path string) {
 		if !armed || strings.HasPrefix(site, "visit.") {
 			return
 		}
+		seq = append(seq, site)
 		k++
 		base := filepath.Join(crashRoot, fmt.Sprintf("%03d", k))
 		if err := copyTree(dir, base); err != nil {
@@ -186,6 +188,14 @@ func runCrashBehaviour(w *tr.Writer, b storeBehaviour, seed int64, scratch strin
 	// run pre-history + target through the ordinary driver (emits reset + one event per op)
 	armAt := len(pre.Ops)
 	runStoreBehaviourHooked(w, b, seed, scratch, dir, func(i int) { armed = i == armAt }, func(i int) { armed = false })
+	// the file-system mutations the interrupted operation went through, by hook site (judged against FileStoreProg)
+	if target.Op == "add" || target.Op == "seen" || target.Op == "remove" || target.Op == "purge" {
+		tn := ""
+		if target.Mb >= 0 && target.Mb < len(b.Names) {
+			tn = b.Names[target.Mb]
+		}
+		w.Emit(tr.Ev{"a": "sites", "t": b.ID, "op": target.Op, "mb": tn, "seq": seq})
+	}
 	// now the crash states
 	name := ""
 	if target.Mb >= 0 && target.Mb < len(b.Names) {
